@@ -130,11 +130,11 @@ CHECKS["C08"] = {
         "quick": [{"pkg": "internal/pfcp", "entries": ["ZZ_C08_*"], "witnesses": 4, "max_paths": 200000}],
         "thorough": [{"pkg": "internal/pfcp", "entries": ["ZZ_C08_*"], "witnesses": 8, "max_paths": 2000000}],
     },
-    "covers": {"all": ["ZZ_C08_SessionLevel:C08.sess.with-cp-fseid", "ZZ_C08_Heartbeat:C08.hb.done", "ZZ_C08_AssocNoNodeID:C08.assoc-nonode.done", "ZZ_C08_Establish:C08.est.done",
+    "covers": {"all": ["ZZ_C08_EqualCPSEIDs:C08.eq.done", "ZZ_C08_SessionLevel:C08.sess.with-cp-fseid", "ZZ_C08_Heartbeat:C08.hb.done", "ZZ_C08_AssocNoNodeID:C08.assoc-nonode.done", "ZZ_C08_Establish:C08.est.done",
                        "ZZ_C08_Establish:C08.est.early-return", "ZZ_C08_SessionLevel:C08.sess.live", "ZZ_C08_SessionLevel:C08.sess.notfound",
                        "ZZ_C08_SessionLevel:C08.sess.bad-nodeid", "ZZ_C08_SessionLevel:C08.sess.ended-before", "ZZ_C08_Retransmission:C08.rtx.done"]},
     "bounds": {
-        "quick": "one or two requests per run: Heartbeat + Association Setup (either peer), Association Setup without Node ID, Establishment (known/unknown node, with/without Node ID, CP F-SEID present / absent / present but undecodable (truncated, empty), 0..2 Create PDRs each with/without a UE IPv4 address, symbolic PDR ids and CP SEID) followed by a Modification to the returned UP SEID, Modification/Deletion/Modification-with-undecodable-Node-ID addressed by an unconstrained 64-bit header SEID from either peer, with the session alive, already deleted, or dropped by a re-association of its node; a Modification may carry a CP F-SEID IE with another SEID (the response and the following Deletion response must then name the same SEID, one of the two); sequence numbers symbolic 24 bit; start instant 2026-10-01",
+        "quick": "one or two requests per run: Heartbeat + Association Setup (either peer), Association Setup without Node ID, Establishment (known/unknown node, with/without Node ID, CP F-SEID present / absent / present but undecodable (truncated, empty), 0..2 Create PDRs each with/without a UE IPv4 address, symbolic PDR ids and CP SEID) followed by a Modification to the returned UP SEID, Modification/Deletion/Modification-with-undecodable-Node-ID addressed by an unconstrained 64-bit header SEID from either peer, with the session alive, already deleted, or dropped by a re-association of its node; a Modification may carry a CP F-SEID IE with another SEID (the response and the following Deletion response must then name the same SEID, one of the two); sequence numbers symbolic 24 bit; start instant 2026-10-01; two peers establishing sessions with EQUAL CP SEIDs, then one of them ends its session (Deletion or SEID-0 report response) and both address their sessions again",
         "thorough": "same with three start instants (NTP second 1, 2026-10-01, last second of NTP era 0)",
     },
     "outside": "FQDN / IPv6 node ids, UE IPv6 addresses, symbolic UE addresses (they pass through text formatting), more than two requests per run",
@@ -150,7 +150,7 @@ CHECKS["C06"] = {
     "covers": {"all": ["ZZ_C06_UnansweredThenAnswerable:C06.unanswered.done", "ZZ_C06_Loop:C06.done", "ZZ_C06_Loop:C06.dup", "ZZ_C06_Loop:C06.first", "ZZ_C06_Loop:C06.expiry", "ZZ_C06_Loop:C06.same-key",
                        "ZZ_C06_Retention:C06.retention.done"]},
     "bounds": {
-        "quick": "the real event loop (PfcpServer.main + receiver as coroutines) fed with 3 events after a 3-request prefix; two request templates with kind in {Heartbeat, Association Setup, Establishment, Deletion, Establishment without Node ID}, source one of two peers, 24-bit symbolic sequence numbers (equal or different); each event is a copy of template 0/1 or the retention-timer expiry of its key, in every order; retention value checked for MaxRetrans 0..255 x 3 timeouts; plus one fixed scenario with symbolic sequence numbers and sender: an Establishment naming a node that is not associated yet (unanswered, but seen), the node's Association Setup, 1..2 duplicates of the Establishment (must be ignored), the retention timer really firing (zzFireTimer), and the same octets once more (now executed)",
+        "quick": "the real event loop (PfcpServer.main + receiver as coroutines) fed with 3 events after a 3-request prefix; two request templates with kind in {Heartbeat, Association Setup, Establishment, Deletion, Establishment without Node ID}, source one of two peers, 24-bit symbolic sequence numbers (equal or different); each event is a copy of template 0/1 or the retention-timer expiry of its key, in every order; retention value checked for MaxRetrans 0..255 x 3 timeouts; plus one fixed scenario with symbolic sequence numbers and sender: an Establishment naming a node that is not associated yet (unanswered, but seen), the node's Association Setup, 1..2 duplicates of the Establishment (must be ignored), the retention timer really firing (zzFireTimer), and the same octets once more (now executed); requests come from peer A, peer B or a second endpoint on A's host (same IP, other port); expiries are the real retention timers firing (zzFireTimer), the harness never spells a transaction key itself",
         "thorough": "same with 4 events",
     },
     "outside": "more than 4 events / 2 distinct keys; real time (expiry is injected through NotifyTransTimeout, the entry point the timer callback uses); pre-emptive interleavings (the loop is single threaded; events are serialised by its select)",
@@ -166,7 +166,7 @@ CHECKS["C09"] = {
     "covers": {"all": ["ZZ_C09_Crossed:C09.crossed.timeout-first", "ZZ_C09_Crossed:C09.crossed.response-first", "ZZ_C09_Loop:C09.done", "ZZ_C09_Loop:C09.retry", "ZZ_C09_Loop:C09.abandon", "ZZ_C09_Loop:C09.response.matched",
                        "ZZ_C09_Loop:C09.response.unmatched", "ZZ_C09_Loop:C09.expiry.dead"]},
     "bounds": {
-        "quick": "the real event loop; transmit counter symbolic over the whole 32-bit range (so that a run can sit on either side of, or cross, the 2^24 and the 2^32 boundary), retry limit 0..3, 1..2 Session Report Requests for two sessions of two peers, then 3 events each a retransmission-timer expiry of either request or a Session Report Response from either peer with a symbolic 24-bit sequence number, in every order; plus the crossing of a response with the expiry of the same request's timer: the timer really fires (zzFireTimer), the response arrives too, and the two case bodies of the loop's select run in either order (the harness plays the select so that both orders replay natively), after 0..1 earlier retransmissions, retry limit 0..3",
+        "quick": "the real event loop; transmit counter symbolic over the whole 32-bit range (so that a run can sit on either side of, or cross, the 2^24 and the 2^32 boundary), retry limit 0..3, 1..2 Session Report Requests for two sessions of two peers, then 3 events each a retransmission-timer expiry of either request or a Session Report Response from either peer with a symbolic 24-bit sequence number, in every order; plus the crossing of a response with the expiry of the same request's timer: the timer really fires (zzFireTimer), the response arrives too, and the two case bodies of the loop's select run in either order (the harness plays the select so that both orders replay natively), after 0..1 earlier retransmissions, retry limit 0..3; responses come from peer A, peer B or a second endpoint on A's host; expiries are the real timers firing",
         "thorough": "same with 4 events",
     },
     "outside": "more than 2 outstanding requests; real timers (an expiry is injected only for a transaction whose timer the code armed)",
@@ -195,7 +195,7 @@ CHECKS["C02"] = {
                        "ZZ_C02_CreatePDR:C02.fd.uplink", "ZZ_C02_CreatePDR:C02.fd.downlink",
                        "ZZ_C02_CreateFAR:C02.far.done", "ZZ_C02_UpdateFAR:C02.far.done", "ZZ_C02_RemoveFAR:C02.rmfar.done",
                        "ZZ_C02_UpdateFAR:C02.far.update-of-buffering-far"]},
-    "bounds": {"quick": "Create/Update/Remove PDR and FAR with every IE payload byte, the SEID and the link index symbolic; PDR: 3 presence profiles (maximal with 2 QER ids, 2 URR ids, 2 SDF filters one of which carries a concrete flow description while the other may carry ToS traffic class, SPI and flow label (each present or absent, symbolic octets) in front of its filter id; minimal; typical) x 6 permutations of 4 child blocks x PDI children plain/reversed; FAR: 3 profiles (Apply Action 1/2 octets, outer header creation GTP-U or UDP, forwarding policy, SMReq flags, BAR id) x 6 permutations; Update FAR both against a kernel that does not know the FAR and against one where it is buffering with a related PDR and QER (so that the buffer-release lookups run before the update request, which must still address the FAR named in the IE)",
+    "bounds": {"quick": "Create/Update/Remove PDR and FAR with every IE payload byte, the SEID and the link index symbolic; PDR: 3 presence profiles (maximal with 2 QER ids, 2 URR ids, 2 SDF filters one of which carries a concrete flow description while the other may carry ToS traffic class, SPI and flow label (each present or absent, symbolic octets) in front of its filter id; minimal; typical) x 6 permutations of 4 child blocks x PDI children plain/reversed; FAR: 3 profiles (Apply Action 1/2 octets, outer header creation GTP-U or UDP, forwarding policy, SMReq flags, BAR id) x 6 permutations; Update FAR both against a kernel that does not know the FAR and against one where it is buffering with a related PDR and QER (so that the buffer-release lookups run before the update request, which must still address the FAR named in the IE); PDR profiles 4 and 5: two SDF filters both without flow description, and two with the same flow description text and different ids",
                "thorough": "24 permutations, plus all 64x27 PDR and 9x16 FAR presence subsets in canonical order"},
     "outside": "IPv6 variants, IEs the driver ignores (Network Instance, Application ID, Ethernet filters), IE lengths other than nominal (malformed input is C07), symbolic flow descriptions (C16)",
     "assumptions": FWD_ASSUME,
